@@ -72,7 +72,9 @@ fn configs(tier: &str) -> Vec<Cfg> {
                 let warms: Vec<usize> = match (tier, cap) {
                     (_, Some(0)) => vec![0],
                     ("quick", None) => vec![0, 5],
-                    ("quick", _) => vec![0],
+                    // one warmed-up start per bounded capacity: the cursors have passed the end of the ring once
+                    // (wrapped rings, recycled slots) before the explored history begins
+                    ("quick", Some(c)) => vec![0, c + 1],
                     (_, Some(c)) => vec![0, c, 2 * c + 1],
                     (_, None) => vec![0, 3, 5, 9],
                 };
